@@ -99,6 +99,58 @@ Definition threshold (n : nat) (k : Z) (sel : list Z) : list bool :=
 Fixpoint count_true (l : list bool) : Z :=
   match l with [] => 0 | b :: r => (if b then 1 else 0) + count_true r end.
 
+(* what run does with ANY integer k = int(prevalence * n) (prevalence outside [0,1) included):
+   k = n: everybody; k > n or k < -n: argpartition raises ValueError (kth out of bounds);
+   -n <= k < 0: numpy counts kth and the slice [:k] from the end, i.e. the top n+k
+   liabilities are marked; otherwise the top k.  Ok m = "m samples are marked". *)
+Definition cases_of (k n : Z) : res Z :=
+  if k =? n then Ok n
+  else if (n <? k) || (k <? - n) then Err E_Value
+  else if k <? 0 then Ok (n + k) else Ok k.
+
+(* ---------- the phenotype over Q -------------------------------------------- *)
+
+(* pt += pt_noise *)
+Fixpoint addv (a b : list Q) : list Q :=
+  match a, b with
+  | x :: r, y :: s => Qred (x + y) :: addv r s
+  | _, _ => []
+  end.
+(* liability_i = sum_j beta_j Z_ij + eps_i; z is the matrix the betas multiply: the
+   standardised dosages (an input: there is no square root over Q) or the raw dosages *)
+Definition liability_q (betas : list Q) (z : list (list Q)) (eps : list Q) : list Q :=
+  addv (genetic betas z) eps.
+Definition bool_q (b : bool) : Q := if b then 1%Q else 0%Q.
+(* kk = None: quantitative trait; Some k: case/control with k = int(prevalence * n) and
+   sel = what argpartition returned *)
+Definition phenotype_q (betas : list Q) (z : list (list Q)) (eps : list Q) (kk : option Z) (sel : list Z) : list Q :=
+  let l := liability_q betas z eps in
+  match kk with
+  | None => l
+  | Some k => map bool_q (threshold (length l) k sel)
+  end.
+
+(* one call of run, composed: found effects, dosage, (given) standardised matrix, genetic
+   component, noise variance handed to rng.normal (as its square root), phenotype *)
+Record run_out := mkout { ro_ids : list id; ro_dosage : list (list Z); ro_noise : Q; ro_pt : list Q }.
+Definition run_q (gids : list id) (gt : list (list (Z * Z))) (eff : list (id * Q))
+    (zstd : option (list (list Q))) (h2 env : option Q) (kk : option Z) (eps : list Q) (sel : list Z) : res run_out :=
+  match run_error gids with
+  | Some e => Err e
+  | None =>
+      let al := aligned gids eff in
+      let betas := map (fun x => snd (snd x)) al in
+      let d := dosage gt (map fst al) in
+      let z := match zstd with Some z => z | None => map (map inject_Z) d end in
+      let g := genetic betas z in
+      match match kk with Some k => cases_of k (lenZ gt) | None => Ok 0 end with
+      | Err e => Err e
+      | Ok _ =>
+          Ok (mkout (map (fun x => fst (snd x)) al) d (noise_var betas h2 env (qvar g))
+                    (phenotype_q betas z eps kk sel))
+      end
+  end.
+
 (* ---------- names of the replicate columns ---------------------------------- *)
 
 Fixpoint join (ids : list id) : list Z :=
